@@ -514,3 +514,140 @@ func (s Shape) ToGeom(div float64, closed bool) geom.Polygonal {
 	}
 	return mp
 }
+
+/* ---------- scale families, shared backing arrays, in-place mutation ---------- */
+
+func scalePath(p []geom.Point, f float64) []geom.Point {
+	o := make([]geom.Point, len(p))
+	for i, q := range p {
+		o[i] = geom.Point{X: q.X * f, Y: q.Y * f}
+	}
+	return o
+}
+
+// ScaleGeom multiplies every coordinate by f (use powers of two: exact).
+func ScaleGeom(g geom.Geom, f float64) geom.Geom {
+	switch t := g.(type) {
+	case geom.LineString:
+		return geom.LineString(scalePath(t, f))
+	case geom.MultiLineString:
+		o := make(geom.MultiLineString, len(t))
+		for i, l := range t {
+			o[i] = geom.LineString(scalePath(l, f))
+		}
+		return o
+	case geom.Polygon:
+		o := make(geom.Polygon, len(t))
+		for i, l := range t {
+			o[i] = geom.Path(scalePath(l, f))
+		}
+		return o
+	case geom.MultiPolygon:
+		o := make(geom.MultiPolygon, len(t))
+		for i, pg := range t {
+			o[i] = ScaleGeom(pg, f).(geom.Polygon)
+		}
+		return o
+	case *geom.Bounds:
+		return &geom.Bounds{Min: geom.Point{X: t.Min.X * f, Y: t.Min.Y * f}, Max: geom.Point{X: t.Max.X * f, Y: t.Max.Y * f}}
+	}
+	return g
+}
+
+// Flat rebuilds a polygon / multi-polygon so that all its rings are consecutive windows of ONE
+// backing array with spare capacity (an append to a ring would overwrite the next ring).
+func Flat(g geom.Polygonal) geom.Polygonal {
+	total := 0
+	count := func(pg geom.Polygon) {
+		for _, r := range pg {
+			total += len(r)
+		}
+	}
+	switch t := g.(type) {
+	case geom.Polygon:
+		count(t)
+	case geom.MultiPolygon:
+		for _, pg := range t {
+			count(pg)
+		}
+	default:
+		return g
+	}
+	buf := make([]geom.Point, total, total+8)
+	at := 0
+	flat := func(pg geom.Polygon) geom.Polygon {
+		if pg == nil {
+			return nil
+		}
+		o := make(geom.Polygon, len(pg))
+		for i, r := range pg {
+			copy(buf[at:], r)
+			o[i] = geom.Path(buf[at : at+len(r)]) // capacity runs on into the following rings
+			at += len(r)
+		}
+		return o
+	}
+	switch t := g.(type) {
+	case geom.Polygon:
+		return flat(t)
+	case geom.MultiPolygon:
+		o := make(geom.MultiPolygon, len(t))
+		for i, pg := range t {
+			o[i] = flat(pg)
+		}
+		return o
+	}
+	return g
+}
+
+// CopyInto overwrites the coordinates of dst with those of src IN PLACE when both have the same
+// type and the same member / ring / vertex counts (same addresses, same lengths afterwards) and
+// returns dst; otherwise it returns src.
+func CopyInto(dst, src geom.Polygonal) geom.Polygonal {
+	same := func(a, b geom.Polygon) bool {
+		if len(a) != len(b) {
+			return false
+		}
+		for i := range a {
+			if len(a[i]) != len(b[i]) {
+				return false
+			}
+		}
+		return true
+	}
+	switch s := src.(type) {
+	case geom.Polygon:
+		d, ok := dst.(geom.Polygon)
+		if !ok || !same(d, s) {
+			return src
+		}
+		for i := range s {
+			copy(d[i], s[i])
+		}
+		return d
+	case geom.MultiPolygon:
+		d, ok := dst.(geom.MultiPolygon)
+		if !ok || len(d) != len(s) {
+			return src
+		}
+		for i := range s {
+			if !same(d[i], s[i]) {
+				return src
+			}
+		}
+		for i := range s {
+			for j := range s[i] {
+				copy(d[i][j], s[i][j])
+			}
+		}
+		return d
+	case *geom.Bounds:
+		d, ok := dst.(*geom.Bounds)
+		if !ok || d == nil || s == nil {
+			return src
+		}
+		*d = *s
+		return d
+	}
+	return src
+}
